@@ -2,6 +2,7 @@ package main
 
 import (
 	"fmt"
+	"go/constant"
 	"go/token"
 	"go/types"
 	"os"
@@ -13,10 +14,10 @@ import (
 
 func init() {
 	register(&PropDef{
-		ID:    "C14",
-		Title: "Nothing received from the network or the admin port can crash the relay",
-		Decided: "every instruction of the classes K1 explicit panic, K2 log.Fatal*/os.Exit/session.Must, K3 integer division or remainder by a non-constant, K4 time.NewTicker/Tick with a non-constant period, K5 type assertion without comma-ok, K6 make(chan/slice) with a non-constant size, K7 method call on a *regexp.Regexp struct field, K8 close of a channel field, K9 constant index / [c:len-d] slicing of a slice, K11 dereference of an unchecked map lookup — in any function that can run after start-up (reachable from goroutines, input handlers, the admin command interpreter or library callbacks) — is discharged by a dominating guard on the same value, by validation traced through struct fields, parameters and all callers back to a rejecting comparison in a constructor, or by a reviewed entry whose structural precondition is re-checked.",
-		NotDecided: "nil dereferences and index errors outside these classes (no sound general nil/bounds analysis is in reach); panics inside third-party libraries; memory exhaustion; sites reachable only from main before the inputs start are listed as start-up refusals, not failed.",
+		ID:          "C14",
+		Title:       "Nothing received from the network or the admin port can crash the relay",
+		Decided:     "every instruction of the classes K1 explicit panic, K2 log.Fatal*/os.Exit/session.Must, K3 integer division or remainder by a non-constant, K4 time.NewTicker/Tick with a non-constant period, K5 type assertion without comma-ok, K6 make(chan/slice) with a non-constant size, K7 method call on a *regexp.Regexp struct field, K8 close of a channel field, K9 constant index / [c:len-d] slicing of a slice, K11 dereference of an unchecked map lookup — in any function that can run after start-up (reachable from goroutines, input handlers, the admin command interpreter or library callbacks) — is discharged by a dominating guard on the same value, by validation traced through struct fields, parameters and all callers back to a rejecting comparison in a constructor, or by a reviewed entry whose structural precondition is re-checked.",
+		NotDecided:  "nil dereferences and index errors outside these classes (no sound general nil/bounds analysis is in reach); panics inside third-party libraries; memory exhaustion; sites reachable only from main before the inputs start are listed as start-up refusals, not failed.",
 		Assumptions: []string{"logging and metrics calls do not panic", "a comparison recognised as a guard is sufficient when the edge leading to the site implies the needed sign/non-zero property of the same variable or struct field (fields are assumed not to be modified between validation in the constructor and use, which R checks by requiring every store into the field to be validated)"},
 		Rules: []RuleDef{
 			{ID: "C14.R1", Min: 60, Doc: "crash-site obligations K1–K11 over all runtime functions: enumerate, then discharge by guard / validated value flow / reviewed table", Run: c14r1},
@@ -122,13 +123,73 @@ func nilGuarded(fn *ssa.Function, at ssa.Instruction, v ssa.Value) bool {
 }
 
 // lenGuarded: some comparison involving len(x) (x at the same location as v) decides whether `at` is reached.
+var depthLG int
+
+// helperTrueImpliesLenTest: every way the boolean helper g can return true is controlled by a
+// test of len(par) inside g.
+func helperTrueImpliesLenTest(g *ssa.Function, par *ssa.Parameter) bool {
+	if g.Signature.Results().Len() != 1 {
+		return false
+	}
+	okAll, n := true, 0
+	allInstrs(g, func(in ssa.Instruction) {
+		ret, ok := in.(*ssa.Return)
+		if !ok {
+			return
+		}
+		var blocks []*ssa.BasicBlock
+		isFalse := func(v ssa.Value) bool {
+			k, ok := v.(*ssa.Const)
+			return ok && k.Value != nil && k.Value.Kind() == constant.Bool && !constant.BoolVal(k.Value)
+		}
+		switch r := ret.Results[0].(type) {
+		case *ssa.Phi:
+			for i, e := range r.Edges {
+				if !isFalse(e) {
+					blocks = append(blocks, r.Block().Preds[i])
+				}
+			}
+		default:
+			if !isFalse(r) {
+				blocks = append(blocks, ret.Block())
+			}
+		}
+		for _, b := range blocks {
+			n++
+			depthLG++
+			// any instruction of b serves as the position to be guarded
+			if !lenGuarded(g, b.Instrs[len(b.Instrs)-1], par) {
+				okAll = false
+			}
+			depthLG--
+		}
+	})
+	return okAll && n > 0
+}
+
 func lenGuarded(fn *ssa.Function, at ssa.Instruction, v ssa.Value) bool {
 	for _, b := range fn.Blocks {
 		ifi, ok := b.Instrs[len(b.Instrs)-1].(*ssa.If)
 		if !ok {
 			continue
 		}
-		cond, _ := negStrip(ifi.Cond)
+		cond, negated := negStrip(ifi.Cond)
+		// a boolean helper of the module that tests the length of its argument: isRegexSpec(s)
+		if call, ok := cond.(*ssa.Call); ok && depthLG < 2 {
+			if g := call.Call.StaticCallee(); g != nil && g.Blocks != nil && ModuleFunc(g) {
+				for ai, a := range call.Call.Args {
+					if (a == v || sameLoc(a, v)) && ai < len(g.Params) && helperTrueImpliesLenTest(g, g.Params[ai]) {
+						si := 0
+						if negated {
+							si = 1
+						}
+						if edgeDominates(b, b.Succs[si], at.Block()) {
+							return true
+						}
+					}
+				}
+			}
+		}
 		bo, ok := cond.(*ssa.BinOp)
 		if !ok {
 			continue
@@ -600,6 +661,8 @@ func c14r2(c *Check) {
 			if st, ok := in.(*ssa.Store); ok && st.Val == p {
 				if _, g := guardedAt(dn, st, p, par.nd); g {
 					okG = true
+				} else if _, g := validatedByHelper(dn, st, p, par.nd, 0); g {
+					okG = true
 				}
 			}
 		})
@@ -723,36 +786,29 @@ func c14r2(c *Check) {
 			if par.Name() == "spoolBufSize" {
 				nd = needNonNeg
 			}
-			for _, b := range dn.Blocks {
-				ifi, ok := b.Instrs[len(b.Instrs)-1].(*ssa.If)
-				if !ok {
-					continue
-				}
-				cond, neg := negStrip(ifi.Cond)
-				bo, ok := cond.(*ssa.BinOp)
-				if !ok || bo.X != par {
-					continue
-				}
-				k, ok := constInt(bo.Y)
-				if !ok {
-					continue
-				}
-				_, uns := isIntType(par.Type())
-				for si := 0; si < 2; si++ {
-					// the edge that does NOT establish the property must return an error
-					if edgeEstablishes(bo.Op, k, true, (si == 0) != neg, nd, uns) {
-						other := b.Succs[1-si]
-						if ret, ok := other.Instrs[len(other.Instrs)-1].(*ssa.Return); ok && len(ret.Results) == 2 {
-							if c0, isConst := ret.Results[1].(*ssa.Const); !isConst || !c0.IsNil() {
-								if par.Name() == "spoolSyncPeriod" {
-									okSync = true
-								} else {
-									okSBuf = true
-								}
-							}
+			ok := rejectingComparison(dn, par, nd)
+			if !ok {
+				// the comparison may live in a validating helper whose error New hands on
+				allInstrs(dn, func(in ssa.Instruction) {
+					call, isCall := in.(*ssa.Call)
+					if !isCall {
+						return
+					}
+					g := call.Call.StaticCallee()
+					if g == nil || g.Blocks == nil || !ModuleFunc(g) {
+						return
+					}
+					for ai, a := range call.Call.Args {
+						if a == ssa.Value(par) && ai < len(g.Params) && rejectingComparison(g, g.Params[ai], nd) {
+							ok = true
 						}
 					}
-				}
+				})
+			}
+			if par.Name() == "spoolSyncPeriod" {
+				okSync = ok
+			} else {
+				okSBuf = ok
 			}
 		}
 	}
@@ -784,20 +840,60 @@ func c14r2(c *Check) {
 	c.Judge(okRet, "nsqd.NewDiskQueue returns *DiskQueue", c.AtFn(ndq), "the assertion in NewSpool cannot fail", "NewDiskQueue can return something other than *DiskQueue: NewSpool's unchecked assertion panics")
 	// getSchemas rejects empty retention lists
 	okRetn := false
-	allInstrs(gs, func(in ssa.Instruction) {
-		if bo, ok := in.(*ssa.BinOp); ok && bo.Op == token.EQL {
-			if k, ok := constInt(bo.Y); ok && k == 0 {
-				if call, ok := bo.X.(*ssa.Call); ok {
-					if b, ok := call.Call.Value.(*ssa.Builtin); ok && b.Name() == "len" {
-						if _, names := fieldPath(call.Call.Args[0]); len(names) > 0 && names[len(names)-1] == "Retentions" {
-							okRetn = true
-						}
-					}
-				}
+	for _, b := range gs.Blocks {
+		ifi, ok := b.Instrs[len(b.Instrs)-1].(*ssa.If)
+		if !ok {
+			continue
+		}
+		cnd, neg := negStrip(ifi.Cond)
+		bo, ok := cnd.(*ssa.BinOp)
+		if !ok {
+			continue
+		}
+		isLenRet := func(v ssa.Value) bool {
+			call, ok := v.(*ssa.Call)
+			if !ok {
+				return false
+			}
+			bi, ok := call.Call.Value.(*ssa.Builtin)
+			if !ok || bi.Name() != "len" {
+				return false
+			}
+			_, names := fieldPath(call.Call.Args[0])
+			return len(names) > 0 && names[len(names)-1] == "Retentions"
+		}
+		// truth of the comparison for an empty list
+		var truth, known bool
+		if k, ok := constInt(bo.Y); ok && isLenRet(bo.X) {
+			truth, known = evalRel(bo.Op, 0, k)
+		} else if k, ok := constInt(bo.X); ok && isLenRet(bo.Y) {
+			truth, known = evalRel(bo.Op, k, 0)
+		}
+		if !known {
+			continue
+		}
+		// and for a one-element list the other edge must be taken (the test really separates empty from non-empty)
+		var truth1 bool
+		if k, ok := constInt(bo.Y); ok && isLenRet(bo.X) {
+			truth1, _ = evalRel(bo.Op, 1, k)
+		} else if k, ok := constInt(bo.X); ok {
+			truth1, _ = evalRel(bo.Op, k, 1)
+		}
+		if truth1 == truth {
+			continue
+		}
+		si := 1
+		if truth != neg {
+			si = 0
+		}
+		tgt := b.Succs[si]
+		if ret, ok := tgt.Instrs[len(tgt.Instrs)-1].(*ssa.Return); ok && len(ret.Results) == 2 {
+			if k, isC := ret.Results[1].(*ssa.Const); !isC || !k.IsNil() {
+				okRetn = true
 			}
 		}
-	})
-	c.Judge(okRetn, "route.getSchemas rejects schemas without retentions", c.AtFn(gs), "len(Retentions) == 0 is an error", "getSchemas accepts a schema with an empty retention list: parseMetric indexes Retentions[0]")
+	}
+	c.Judge(okRetn, "route.getSchemas rejects schemas without retentions", c.AtFn(gs), "an empty Retentions list is an error", "getSchemas accepts a schema with an empty retention list: parseMetric indexes Retentions[0]")
 	// consistent hashing routes start with >= 2 destinations
 	for _, rdr := range [][2]string{{"imperatives", "readAddRouteConsistentHashing"}, {"cfg", "InitRoutes"}} {
 		fn := c.P.Func(rdr[0], "", rdr[1])
@@ -847,4 +943,59 @@ func c14r2(c *Check) {
 		}
 	})
 	c.Judge(okMin && okArg, "route.ConsistentHashing.DelDestination keeps at least one destination", c.AtFn(chd), "delDestination(index, minDests >= 1, …) with a comparison on minDests", "the last destination of a consistentHashing route can be removed: the next Dispatch computes `% len(Ring)` with an empty ring")
+}
+
+// evalRel evaluates the integer comparison a op b.
+func evalRel(op token.Token, a, b int64) (bool, bool) {
+	switch op {
+	case token.EQL:
+		return a == b, true
+	case token.NEQ:
+		return a != b, true
+	case token.LSS:
+		return a < b, true
+	case token.LEQ:
+		return a <= b, true
+	case token.GTR:
+		return a > b, true
+	case token.GEQ:
+		return a >= b, true
+	}
+	return false, false
+}
+
+// rejectingComparison: fn compares par with a constant and the edge on which nd does NOT hold
+// returns a non-nil error.
+func rejectingComparison(fn *ssa.Function, par *ssa.Parameter, nd need) bool {
+	for _, b := range fn.Blocks {
+		ifi, ok := b.Instrs[len(b.Instrs)-1].(*ssa.If)
+		if !ok {
+			continue
+		}
+		cond, neg := negStrip(ifi.Cond)
+		bo, ok := cond.(*ssa.BinOp)
+		if !ok || bo.X != ssa.Value(par) {
+			continue
+		}
+		k, ok := constInt(bo.Y)
+		if !ok {
+			continue
+		}
+		_, uns := isIntType(par.Type())
+		for si := 0; si < 2; si++ {
+			if !edgeEstablishes(bo.Op, k, true, (si == 0) != neg, nd, uns) {
+				continue
+			}
+			other := b.Succs[1-si]
+			ret, ok := other.Instrs[len(other.Instrs)-1].(*ssa.Return)
+			if !ok || len(ret.Results) == 0 {
+				continue
+			}
+			last := ret.Results[len(ret.Results)-1]
+			if c0, isConst := last.(*ssa.Const); !isConst || !c0.IsNil() {
+				return true
+			}
+		}
+	}
+	return false
 }
